@@ -69,7 +69,7 @@ func (b *expr2Boolean) Capture(values []string) error {
 	return nil
 }
 
-var expr2Parser = participle.MustBuild[expr2Expression](participle.UseLookahead(2))
+var expr2Parser = mustBuild[expr2Expression](participle.UseLookahead(2))
 
 func init() {
 	f := Register("expr2", expr2Parser, nil,
